@@ -155,7 +155,12 @@ def query2(ctx) -> List[Ob]:
     m = _scfg_method(ctx, "find_exiting_and_exits")
     sub = [p.arg for p in m.params if p.arg != "self"][0]
     where = ctx.where(m)
-    outer = [lp for lp in _loops(m.node) if A.unparse(lp.iter) in (sub, f"sorted({sub})")]
+    from .common import expanded_function
+
+    # locals that merely name a selector (`block = self.graph[inside]`) are read through
+    mx = expanded_function(m)
+    A.set_parents(mx)
+    outer = [lp for lp in _loops(mx) if A.unparse(lp.iter) in (sub, f"sorted({sub})")]
     if not outer:
         out.append(unresolved("QUERY-2", m.qualname, "iterates the subset", where, "find_exiting_and_exits is not written in the recognised form (loop over the subset)"))
     else:
@@ -1206,10 +1211,43 @@ def query7(ctx) -> List[Ob]:
         out.append(unresolved("QUERY-7", fn.qualname, key, where, "the loop does not take a node from the work-list"))
         return out
     n = A.unparse(pops[0].targets[0])
-    news = [s for s in wbody if isinstance(s, ast.Assign) and A.unparse(s.value) == f"{{{n}}}"]
+    def _inter_term(v):
+        """the iterable of predecessors when v is the intersection of D[p] over it, in any accepted spelling:
+        reduce(set.intersection | operator.and_ | lambda a, b: a & b, C), set.intersection(*C), C a
+        comprehension [D[p] for p in PV] (or a local bound once to it)"""
+        from .order import _commutative_reduce
+
+        comp = None
+        if isinstance(v, ast.Call) and (A.dotted(v.func) or "").endswith("reduce") and len(v.args) == 2 and _commutative_reduce(v):
+            op = v.args[0]
+            is_union = (A.dotted(op) or "").endswith(("union", "or_")) or (isinstance(op, ast.Lambda) and ((isinstance(op.body, ast.BinOp) and isinstance(op.body.op, ast.BitOr)) or (isinstance(op.body, ast.Call) and getattr(op.body.func, "attr", "") == "union")))
+            if not is_union:
+                comp = v.args[1]
+        elif isinstance(v, ast.Call) and A.unparse(v.func) in ("set.intersection", "frozenset.intersection") and len(v.args) == 1 and isinstance(v.args[0], ast.Starred):
+            comp = v.args[0].value
+        if isinstance(comp, ast.Name):
+            # (the function is seen in loop form: a list built by a comprehension is `X = []; for p in PV: X.append(D[p])`)
+            for lp_ in [x for x in ast.walk(w) if isinstance(x, ast.For) and len(x.body) == 1 and isinstance(x.body[0], ast.Expr) and isinstance(x.body[0].value, ast.Call)]:
+                c_ = lp_.body[0].value
+                if isinstance(c_.func, ast.Attribute) and c_.func.attr == "append" and A.unparse(c_.func.value) == comp.id and c_.args and A.unparse(c_.args[0]) == f"{D}[{A.unparse(lp_.target)}]":
+                    fills = [x for x in ast.walk(w) if isinstance(x, ast.Call) and isinstance(x.func, ast.Attribute) and x.func.attr in ("append", "extend", "insert") and A.unparse(x.func.value) == comp.id]
+                    if len(fills) == 1:
+                        return lp_.iter
+            return None
+        if isinstance(comp, (ast.ListComp, ast.GeneratorExp)) and len(comp.generators) == 1 and not comp.generators[0].ifs and A.unparse(comp.elt) == f"{D}[{A.unparse(comp.generators[0].target)}]":
+            return comp.generators[0].iter
+        return None
+
+    def _preds_ok(pv, guard_if) -> bool:
+        src = pv
+        if isinstance(pv, ast.Name):
+            src = _single_def_value(ctx, fn, pv) or pv
+        return A.unparse(src) == f"{P}[{n}]" and guard_if is not None and A.unparse(guard_if.test) in (A.unparse(pv), f"len({A.unparse(pv)}) > 0", f"{P}[{n}]") and guard_if in wbody
+
+    news = [s for s in ast.walk(w) if isinstance(s, ast.Assign) and A.unparse(s.value) == f"{{{n}}}"]
     good = False
-    if news:
-        NEW = A.unparse(news[0].targets[0])
+    NEW = A.unparse(news[0].targets[0]) if news else "?"
+    if news and news[0] in wbody:
         augs = [s for s in ast.walk(w) if isinstance(s, ast.AugAssign) and A.unparse(s.target) == NEW]
         # `NEW = NEW | X` is the same update on a local set
         plain = [s for s in ast.walk(w) if isinstance(s, ast.Assign) and s is not news[0] and A.unparse(s.targets[0]) == NEW and isinstance(s.value, ast.BinOp) and isinstance(s.value.op, ast.BitOr) and A.unparse(s.value.left) == NEW]
@@ -1218,24 +1256,22 @@ def query7(ctx) -> List[Ob]:
         if len(upd) == 1 and (upd[0] in plain or isinstance(upd[0].op, ast.BitOr)) and not others:
             v = upd[0].value if upd[0] in augs else upd[0].value.right
             augs = upd
-            pv = None
-            if isinstance(v, ast.Call) and (A.dotted(v.func) or "").endswith("reduce") and len(v.args) == 2 and A.unparse(v.args[0]) == "set.intersection":
-                comp = v.args[1]
-                if isinstance(comp, (ast.ListComp, ast.GeneratorExp)) and len(comp.generators) == 1 and not comp.generators[0].ifs:
-                    g = comp.generators[0]
-                    if A.unparse(comp.elt) == f"{D}[{A.unparse(g.target)}]":
-                        pv = g.iter
-            if isinstance(v, ast.Call) and A.unparse(v.func) == "set.intersection" and len(v.args) == 1 and isinstance(v.args[0], ast.Starred):
-                comp = v.args[0].value
-                if isinstance(comp, (ast.ListComp, ast.GeneratorExp)) and len(comp.generators) == 1 and not comp.generators[0].ifs and A.unparse(comp.elt) == f"{D}[{A.unparse(comp.generators[0].target)}]":
-                    pv = comp.generators[0].iter
+            pv = _inter_term(v)
             if pv is not None:
-                src = pv
-                if isinstance(pv, ast.Name):
-                    src = _single_def_value(ctx, fn, pv) or pv
                 guard = next((a for a in A.ancestors(augs[0]) if isinstance(a, ast.If)), None)
-                if A.unparse(src) == f"{P}[{n}]" and guard is not None and A.unparse(guard.test) in (A.unparse(pv), f"len({A.unparse(pv)}) > 0") and guard in wbody:
-                    good = True
+                good = _preds_ok(pv, guard)
+    elif news:
+        # both arms of `if preds:` assign: NEW = {n} | <intersection>  /  NEW = {n}
+        guard = next((a for a in A.ancestors(news[0]) if isinstance(a, ast.If)), None)
+        if guard is not None and guard in wbody and len(guard.body) == 1 and len(guard.orelse) == 1:
+            arm_u, arm_b = (guard.body[0], guard.orelse[0]) if news[0] is guard.orelse[0] else (guard.orelse[0], guard.body[0])
+            if arm_b is news[0] and isinstance(arm_u, ast.Assign) and A.unparse(arm_u.targets[0]) == NEW and isinstance(arm_u.value, ast.BinOp) and isinstance(arm_u.value.op, ast.BitOr) and arm_u is guard.body[0]:
+                l_, r_ = arm_u.value.left, arm_u.value.right
+                term = r_ if A.unparse(l_) == f"{{{n}}}" else (l_ if A.unparse(r_) == f"{{{n}}}" else None)
+                others = [s for s in ast.walk(w) if isinstance(s, (ast.Assign, ast.AugAssign)) and s not in (arm_u, arm_b) and NEW in A.names_in(s.targets[0] if isinstance(s, ast.Assign) else s.target)]
+                pv = _inter_term(term) if term is not None else None
+                if pv is not None and not others:
+                    good = _preds_ok(pv, guard)
     if good:
         out.append(ok("QUERY-7", fn.qualname, key, ctx.where(fn, news[0]), f"{NEW} = {{{n}}}; if preds: {NEW} |= intersection of {D}[p] for p in {P}[{n}]"))
     else:
@@ -1282,6 +1318,21 @@ def query7(ctx) -> List[Ob]:
                 subs = [s for s in ast.walk(im.node) if isinstance(s, ast.AugAssign) and isinstance(s.op, ast.Sub)]
                 unp = [s for s in ast.walk(im.node) if isinstance(s, ast.Assign) and isinstance(s.targets[0], (ast.List, ast.Tuple)) and len(s.targets[0].elts) == 1]
                 why = "the sweep does not remove, for every remaining dominator v, the strict dominators of v"
+                # the same sweep in one call:  vs.difference_update(*[I[v] for v in vs])   (the operand list is built
+                # before vs changes, exactly like the loop over a copy)
+                bulk = [c_ for c_ in ast.walk(im.node) if isinstance(c_, ast.Call) and isinstance(c_.func, ast.Attribute) and c_.func.attr == "difference_update" and len(c_.args) == 1 and isinstance(c_.args[0], ast.Starred) and isinstance(c_.args[0].value, (ast.ListComp,)) and len(c_.args[0].value.generators) == 1]
+                if not subs and len(bulk) == 1:
+                    c_ = bulk[0]
+                    g_ = c_.args[0].value.generators[0]
+                    vs_ = A.unparse(c_.func.value)
+                    lpk = next((a for a in A.ancestors(c_) if isinstance(a, ast.For)), None)
+                    over_items = lpk is not None and _strip_order(lpk.iter) == f"{I}.items()" and isinstance(lpk.target, ast.Tuple) and len(lpk.target.elts) == 2 and A.unparse(lpk.target.elts[1]) == vs_
+                    over_values = lpk is not None and _strip_order(lpk.iter) == f"{I}.values()" and A.unparse(lpk.target) == vs_
+                    if (over_items or over_values) and not g_.ifs and A.unparse(g_.iter) == vs_ and A.unparse(c_.args[0].value.elt) == f"{I}[{A.unparse(g_.target)}]" and not [a for a in A.ancestors(c_) if isinstance(a, ast.If)]:
+                        if unp:
+                            good = True
+                        else:
+                            why = "the result is not read as the single remaining strict dominator"
                 if len(subs) == 1:
                     lpv = next((a for a in A.ancestors(subs[0]) if isinstance(a, ast.For)), None)
                     lpk = next((a for a in A.ancestors(lpv) if isinstance(a, ast.For)), None) if lpv is not None else None
